@@ -237,3 +237,6 @@ func PathTo(root ast.Node, target ast.Node) []ast.Node {
 	})
 	return best
 }
+
+// AtomicCall reports whether call is a function of package sync/atomic (and its name).
+func AtomicCall(info *types.Info, call *ast.CallExpr) (string, bool) { return isAtomicPkgCall(info, call) }
